@@ -2,7 +2,7 @@ CONSTANTS MaxDepth = 3
           MaxRowsC = 8
           LawDepth = 3
 INIT Init
-NEXT BNext
+NEXT Next
 VIEW View
 CONSTRAINT Bound
 INVARIANT TypeOK
